@@ -3,8 +3,8 @@ package props
 import (
 	"fmt"
 	"os"
-	"time"
 	"strings"
+	"time"
 
 	"github.com/gokrazy/rsync/verifharness/core"
 	"github.com/gokrazy/rsync/verifharness/drive"
